@@ -164,6 +164,38 @@ def leavesFrom (eh : Nat → Val → Hash32) : Nat → List Val → List (MLeaf 
 
 def leavesOfEls (eh : Nat → Val → Hash32) (els : List Val) : List (MLeaf Hash32) := leavesFrom eh 0 els
 
+/-! ### which `*Leaf` constructor hashes each parent
+
+`forEachElementLeaf` calls `siacoinLeaf` on the parents of siacoin inputs, `siafundLeaf` on
+those of siafund inputs, `v2FileContractLeaf` on the parents of revisions and resolutions and
+`chainIndexLeaf` on the proof index of a storage proof. -/
+
+/-- the constructor used for the parents of one resolution -/
+def resolutionKinds : Val → List String
+  | .pair _ (.pair (.pair (.nat 1) (.pair _ _)) _) => ["v2FileContractLeaf", "chainIndexLeaf"]
+  | .pair _ _ => ["v2FileContractLeaf"]
+  | _ => []
+
+def fieldKinds (name : String) : Val → List String
+  | .some (.list vs) => vs.flatMap fun v => match v with | .pair _ _ => [name] | _ => []
+  | _ => []
+
+def txnKinds : Val → List String
+  | .list (f0 :: _ :: f2 :: _ :: _ :: f5 :: f6 :: _) =>
+    fieldKinds "siacoinLeaf" f0 ++ fieldKinds "siafundLeaf" f2 ++ fieldKinds "v2FileContractLeaf" f5 ++
+      (match f6 with | .some (.list rs) => rs.flatMap resolutionKinds | _ => [])
+  | _ => []
+
+/-- the constructor names of the parents `txnsParents` visits, in order -/
+def txnsKinds : Val → List String
+  | .list txs => txs.flatMap txnKinds
+  | _ => []
+
+/-- what the constructor hashes of an element value: everything after the StateElement -/
+def contentOf : Val → Val
+  | .pair _ rest => rest
+  | v => v
+
 /-- the transaction-set operations of the multiproof codec on the value tree of
     `.slice v2txn`, for a payload codec `(encP, decP)` and element hashes `eh` -/
 def valOps (eh : Nat → Val → Hash32) (encP : Val → Bytes) (decP : Bytes → Except DecErr (Val × Bytes)) : TxSetOps Val where
